@@ -39,6 +39,7 @@ type Server struct {
 	plCount   map[string]int
 	faults    map[int]string
 	urlFaults []*urlFault
+	bases     map[string]uint64
 	// OnRequest is called (outside the lock) with the index of each request before it is
 	// answered; it may block (used to inject Close at a request).
 	OnRequest func(n int, path string)
@@ -58,6 +59,16 @@ func (s *Server) ResetClock(t0 time.Time) { s.start = t0 }
 
 // AddFile registers a static resource.
 func (s *Server) AddFile(path string, b []byte) { s.files[path] = b }
+
+// AddFileAt registers a static resource whose bytes are the range [base, base+len(b)) of a much
+// larger virtual resource (byte ranges beyond 4 GiB without holding them in memory).
+func (s *Server) AddFileAt(path string, b []byte, base uint64) {
+	s.files[path] = b
+	if s.bases == nil {
+		s.bases = map[string]uint64{}
+	}
+	s.bases[path] = base
+}
 
 // AddPlaylist registers the successive snapshots of a playlist.
 func (s *Server) AddPlaylist(path string, snapshots ...string) { s.playlists[path] = snapshots }
@@ -202,8 +213,9 @@ func (s *Server) RoundTrip(req *http.Request) (*http.Response, error) {
 		body = f
 		if r := req.Header.Get("Range"); r != "" {
 			var a, b uint64
-			if _, err := fmt.Sscanf(r, "bytes=%d-%d", &a, &b); err == nil && a <= b && b < uint64(len(f)) {
-				body = f[a : b+1]
+			base := s.bases[path]
+			if _, err := fmt.Sscanf(r, "bytes=%d-%d", &a, &b); err == nil && a >= base && a <= b && b-base < uint64(len(f)) {
+				body = f[a-base : b-base+1]
 				status = 206
 			} else {
 				return mk(416, nil), nil
